@@ -4,6 +4,7 @@ import Fabio.Model.C07Spec
 import Fabio.Model.C07Chain
 import Fabio.Model.ServeHTTP
 import Fabio.Model.C12Parse
+import Fabio.Model.C13Parse
 import Fabio.Generated.C07
 namespace Fabio.Driver.C07
 open Lean Fabio.Driver Fabio.Model.C07 Fabio.Model.C07Spec
@@ -220,7 +221,8 @@ def bodyH : Handler := fun inp impl => do
   let mInterimFull := (announced.zip mInterim).map fun (a, c) => (c, a.2)
   let reply : Fabio.Model.C07Chain.Reply :=
     { interim := announced.map (·.1.toNat), status := rstatus.toNat, hdr := repHdr, chunks := [] }
-  let reqH : Fabio.Model.C17.Hdr := if ae = "" then [] else [("Accept-Encoding", [ae])]
+  let accept := optStr inp "accept"
+  let reqH : Fabio.Model.C17.Hdr := (if ae = "" then [] else [("Accept-Encoding", [ae])]) ++ (if accept = "" then [] else [("Accept", [accept])])
   let engaged := gz && Fabio.Model.C07Chain.gzipEngages (fun s => "text/".toList.isPrefixOf s.toList) (method == "HEAD") reqH reply
   -- observed: the reply is labelled gzip although the upstream declared no coding — then the coding is fabio's own
   -- and is undone before comparing (dec_*: what the harness got out of the gzip stream). A coding the upstream
@@ -270,6 +272,7 @@ def bodyH : Handler := fun inp impl => do
              (if announced.isEmpty then "" else "/1xx") ++ (if expect then "/expect" else "") ++
              (if gz then (if byFabio then "/gz-encoded" else "/gz") else "") ++
              (if gz && (ae.toList.contains '*' || ae.toList.contains ';') then "/ae-weighted" else "") ++
+             (if accept ≠ "" then "/accept" else "") ++
              (if rceAny then "/ce" else "") ++ (if hasTrailer then "/trailer" else "") ++
              (if "application/x-www-form-urlencoded".toList.isPrefixOf ctype.toList then "/form" else "") ++
              (if cfgOn cfg then "/cfg" else "")
@@ -427,9 +430,15 @@ def serveH : Handler := fun inp impl => do
                     | x :: _ => x
                     | [] => { service := [], tags := [], opts := [], url := [], fixedWeight := 0 } },
       parsers := C12.Parse.goParsers,
-      parseURL := fun s => ((decoded.find? fun d => d.2.2.1.toList == s).map (·.2.2.2.1)).getD {},
+      -- `url.Parse` of a target URL: C13's model of it (`parseTemplate`); the record `url.Parse` itself produced
+      -- travels with the case and is compared below
+      parseURL := fun s => match C13.parseTemplate (ServeHTTP.utf8 s) with
+        | .ok u => u
+        | _ => {},
       noRouteStatus := status, noRouteHTML := html,
       authSchemes := [("basic".toList, secrets.map fun kv => (kv.1.toList, kv.2.toList))] }
+  -- every target URL of the case: the model's parse is `url.Parse`'s
+  let parseOK := decoded.all fun d => C13.parseTemplate (ServeHTTP.utf8 d.2.2.1.toList) == .ok d.2.2.2.1
   let g (k : String) : Json := (impl.getObjVal? k).toOption.getD Json.null
   let iStatus := (impl.getObjValAs? Int "status").toOption.getD (-1)
   let iHits := (impl.getObjValAs? Int "hits").toOption.getD (-1)
@@ -490,8 +499,9 @@ def serveH : Handler := fun inp impl => do
     let gated := decoded.any fun d => d.2.2.2.2.any fun kv => ["allow", "deny", "auth", "redirect"].contains kv.1
     let tag := out.cls ++ (match out with | .forward f => if f.via == .ws then "+ws" else "" | _ => "") ++
       (if skipped then "+selfredirect" else "")
-    return ({ model := m, agree := m == canonImpl, spec := spec,
-              nontrivial := decoded.length > 1 || gated || out.cls != "forward", tag := tag } : Verdict).toJson
+    return ({ model := m, agree := m == canonImpl && parseOK, spec := spec,
+              nontrivial := decoded.length > 1 || gated || out.cls != "forward",
+              tag := tag ++ (if parseOK then "" else "/target-url-parse") } : Verdict).toJson
 
 /-! ### c07.esclen: `escapedLen` — real, translated, model -/
 
